@@ -25,6 +25,9 @@ NA = {
 
 # property -> (category, technique, level text, level note, design ref)
 CLAIMED = {
+    "C07": ("translation_validation", "four captured representations of every exploration formula (symengine tree, sympy tree, objective formula, lambdified source) proven pairwise equivalent by z3 over the tile-shape box",
+            "Translation validation with bounded SMT: the real make_tile_shapes runs on mapper templates (real get_jobs) under four capturing wrappers; for each formula z3 shows symengine tree == sympy tree == Objective.formula == the lambdified function's source for every integer tile assignment in [1, rank bound]^symbols (no divisibility assumed); the formula-vs-concrete-mapping leg is validated by running the real run_model on numeric copies of the template at solver/mapper-chosen assignments.",
+            "Reals instead of float32 (the property allows float32 rounding); the lambdified function is read through its source; templates without any valid tile shape are skipped; spatial loops outside.", "4/C07"),
     "C24": ("model_checking", "real geometry helpers executed on symbolic shapes, compared with an interval/enumeration reference by z3 (bounded SMT)",
             "Bounded SMT: for ~90 (quick) / ~180 (thorough) projection structures a*x + b*y + c (optionally a second rank) the real get_stride_and_halo_of_einsum and compute_dense_tile_occupancy run on symbolic shapes X, Y; z3 shows stride == step, halo == extent added by the other variable, occupancy == dense bounding interval, and for unit steps == the number of distinct projected points, for all X, Y in [1,6].",
             "Only the sympy-backed quantities: rank-variable bounds, operation counts and tensor sizes come from islpy and cannot be run on symbols (not decided). Non-negative coefficients only.", "4/C24"),
